@@ -56,6 +56,10 @@ Within(p, a, b, r, S, strict) == LET q == SegDist2(p, a, b, S) IN IF strict THEN
 Scale3(v, S) == <<v[1] * S, v[2] * S, v[3] * S>>
 \* must be lit: strictly inside the capsule of the smaller end radius of some edge; must be dark: outside the capsule of the larger end radius of every edge
 \* (for equal end radii the round cone IS the capsule, so only centres exactly on a surface are left undecided)
-MustLit(p, P, pos, rad, S)  == \E i \in 2 .. Len(P) : LET j == P[i] + 1  r == IF rad[i] < rad[j] THEN rad[i] ELSE rad[j] IN Within(p, pos[j], pos[i], r, S, TRUE)
+\* a round cone contains the balls at both of its ends (whatever their sizes: one may lie inside the other)
+InEndBall(p, P, pos, rad, S) == \E i \in 1 .. Len(P) : /\ (P[i] # -1 \/ \E k \in 2 .. Len(P) : P[k] + 1 = i)
+                                                         /\ LET v == Sub3(p, Scale3(pos[i], S)) IN Dot3(v, v) < rad[i] * rad[i] * S * S
+MustLit(p, P, pos, rad, S)  == \/ \E i \in 2 .. Len(P) : LET j == P[i] + 1  r == IF rad[i] < rad[j] THEN rad[i] ELSE rad[j] IN Within(p, pos[j], pos[i], r, S, TRUE)
+                               \/ InEndBall(p, P, pos, rad, S)
 MustDark(p, P, pos, rad, S) == \A i \in 2 .. Len(P) : LET j == P[i] + 1  r == IF rad[i] > rad[j] THEN rad[i] ELSE rad[j] IN ~Within(p, pos[j], pos[i], r, S, FALSE)
 =============================================================================
